@@ -102,7 +102,14 @@ def configs(tier):
         for closure, size in itertools.product((False, True), ksizes):
             add(link="k", K=K, mode="unack", closure=closure, size=size, check_limit=2,
                 kinds=("drop", "dup", "delay", "flip", "reject"))
+    # null / modular checksum on the K-fault link (loss, duplication, reordering only): 3 segments, so that a
+    # forgotten gap between two received segments is reachable
+    for cks, nak in itertools.product(("null", "mod"), ("def", "imm")):
+        if tier == "quick" and (cks, nak) not in (("null", "def"), ("mod", "imm")):
+            continue
+        add(link="k", K=2, mode="ack", nak=nak, size=2 * L + 1, cks=cks, ack_limit=3, nak_limit=3, kinds=("drop", "dup", "delay"))
     if tier == "thorough":
+        add(link="k", K=3, mode="ack", nak="imm", size=2 * L + 1, cks="null", ack_limit=4, nak_limit=4, kinds=("drop", "delay"))
         for nak in ("imm", "def"):
             add(link="chaos", mode="ack", nak=nak, size=L, ack_limit=2, nak_limit=2, kinds=flips)
     return out
@@ -122,8 +129,11 @@ def run(tier: str) -> int:
     run_.bounds = {"segment_len": 2, "configs": len(worlds),
                    "chaos_acked_sizes": sorted({w.c["size"] for w in worlds if w.link == "chaos" and w.c["mode"] == "ack"}),
                    "K_fault_bounds": sorted({w.K for w in worlds if w.link == "k"})}
-    kw = dict(check_cycles=False, validate_stride=997, n_samples=1, max_states=3_000_000)
+    kw = dict(check_cycles=False, validate_stride=997, n_samples=1, max_states=3_000_000, max_wall=(600 if tier == 'quick' else None))
     run_.add_all(explore_many(small, procs=NPROC, **kw))
     for w in big:
+        if run_.found_something():
+            run_.skip(w)  # verdict already decided; a defect can make the remaining graphs unboundedly large
+            continue
         run_.add(explore(w, procs=NPROC, **kw))
     return run_.finish(rule="complete reachable graph per configuration; safety oracle evaluated inside every Transaction-Finished indication and at every emitted Finished PDU")
